@@ -356,12 +356,28 @@ pub struct Device {
     pub fail: CfgFail,
     /// Which error the failing call reports (index into `ERR_KINDS`).
     pub fail_kind: usize,
+    /// How many more times the failing call refuses (`u32::MAX` = every time; 1 = a transient refusal).
+    pub fail_budget: std::cell::Cell<u32>,
     pub calls: Vec<CfgCall>,
 }
 
 impl Device {
     pub fn new(settings: SimSettings) -> Self {
-        Device { settings, timeout: Duration::from_millis(1), fail: CfgFail::None, fail_kind: 0, calls: Vec::new() }
+        Device { settings, timeout: Duration::from_millis(1), fail: CfgFail::None, fail_kind: 0, fail_budget: std::cell::Cell::new(u32::MAX), calls: Vec::new() }
+    }
+    /// Does the configuration call `at` refuse now? (Consumes one unit of a finite budget.)
+    fn fires(&self, at: CfgFail) -> bool {
+        if self.fail != at {
+            return false;
+        }
+        match self.fail_budget.get() {
+            0 => false,
+            u32::MAX => true,
+            n => {
+                self.fail_budget.set(n - 1);
+                true
+            }
+        }
     }
     pub fn default_odd() -> Self {
         Device::new(SimSettings { baud: BaudRate2(110), char_size: 2, parity: 2, stop_bits: 1, flow: 1, fail_set_baud: false, fail_kind: 0, baud_unreported: false })
@@ -417,17 +433,17 @@ impl<W: Wire> SerialDevice for SimPort<W> {
     type Settings = SimSettings;
 
     fn read_settings(&self) -> serial_core::Result<SimSettings> {
-        if self.dev.fail == CfgFail::ReadSettings {
+        if self.dev.fires(CfgFail::ReadSettings) {
             return Err(serial_core::Error::new(ERR_KINDS[self.dev.fail_kind], "simulated: read_settings failed"));
         }
         let mut s = self.dev.settings;
-        s.fail_set_baud = self.dev.fail == CfgFail::SetBaudRate;
+        s.fail_set_baud = self.dev.fires(CfgFail::SetBaudRate);
         s.fail_kind = self.dev.fail_kind as u8;
         Ok(s)
     }
 
     fn write_settings(&mut self, settings: &SimSettings) -> serial_core::Result<()> {
-        if self.dev.fail == CfgFail::WriteSettings {
+        if self.dev.fires(CfgFail::WriteSettings) {
             return Err(serial_core::Error::new(ERR_KINDS[self.dev.fail_kind], "simulated: write_settings failed"));
         }
         let mut s = *settings;
@@ -443,7 +459,7 @@ impl<W: Wire> SerialDevice for SimPort<W> {
     }
 
     fn set_timeout(&mut self, timeout: Duration) -> serial_core::Result<()> {
-        if self.dev.fail == CfgFail::SetTimeout {
+        if self.dev.fires(CfgFail::SetTimeout) {
             return Err(serial_core::Error::new(ERR_KINDS[self.dev.fail_kind], "simulated: set_timeout failed"));
         }
         self.dev.calls.push(CfgCall::SetTimeout(timeout.as_nanos()));
